@@ -7,18 +7,226 @@ shortened) separators agree with the sorted list of entries.
 namespace Redb.BTree
 open Redb.Key Redb.Spec
 
-/-- a well-formed tree flattens to a strictly sorted list of valid keys inside its bounds -/
+section aux
+variable {t : KT}
+
+/-- an optional bound is absent or a valid encoding -/
+def OptValid (t : KT) (o : Option Bytes) : Prop := ∀ l, o = some l → valid t l = true
+
+theorem optValid_some {k : Bytes} (hk : valid t k = true) : OptValid t (some k) := by
+  intro l hl; cases hl; exact hk
+
+theorem keysOk_spec (hc : CmpLaws t) (ks : List Bytes) (lo hi : Option Bytes)
+    (h : keysOk t lo hi ks = true) :
+    (∀ k ∈ ks, valid t k = true) ∧ ks.Pairwise (fun a b => cmp t a b = .lt) ∧
+    (∀ k ∈ ks, belowHi t hi k = true) ∧ (OptValid t lo → ∀ k ∈ ks, aboveLo t lo k = true) := by
+  induction ks generalizing lo with
+  | nil => simp
+  | cons k rest ih =>
+    simp only [keysOk, Bool.and_eq_true] at h
+    obtain ⟨⟨⟨hk, hlo⟩, hhi⟩, hrest⟩ := h
+    obtain ⟨i1, i2, i3, i4⟩ := ih (some k) hrest
+    have i4 := i4 (optValid_some hk)
+    have hlt : ∀ x ∈ rest, cmp t k x = .lt := by
+      intro x hx; simpa [aboveLo] using i4 x hx
+    refine ⟨?_, ?_, ?_, ?_⟩
+    · intro x hx; rcases List.mem_cons.1 hx with rfl | hx
+      · exact hk
+      · exact i1 x hx
+    · exact List.pairwise_cons.2 ⟨hlt, i2⟩
+    · intro x hx; rcases List.mem_cons.1 hx with rfl | hx
+      · exact hhi
+      · exact i3 x hx
+    · intro hov x hx
+      rcases List.mem_cons.1 hx with rfl | hx
+      · exact hlo
+      · cases lo with
+        | none => simp [aboveLo]
+        | some l =>
+          have hl := hov l rfl
+          simp only [aboveLo, beq_iff_eq] at hlo ⊢
+          exact hc.trans_lt _ _ _ hl hk (i1 x hx) (by simp [hlo]) (hlt x hx)
+
+/-- sorted, valid, and inside the bounds (each bound only when it is itself valid) -/
+def Good (t : KT) (lo hi : Option Bytes) (l : Map) : Prop :=
+  PSorted t l ∧ KeysValid t l ∧ (OptValid t lo → ∀ e ∈ l, aboveLo t lo e.1 = true) ∧
+    (OptValid t hi → ∀ e ∈ l, belowHi t hi e.1 = true)
+
+theorem children_good (hc : CmpLaws t) (d : Nat)
+    (ih : ∀ lo hi tr, wf t lo hi d tr = true → Good t lo hi (flatten tr))
+    (cs : List Tree) (keys : List Bytes) (lo hi : Option Bytes)
+    (hw : wfChildren t lo hi d cs keys = true) (hk : keysOk t lo hi keys = true) :
+    Good t lo hi (flattenList cs) := by
+  induction cs generalizing keys lo with
+  | nil => cases keys <;> simp [wfChildren] at hw
+  | cons c cs ihc =>
+    cases keys with
+    | nil =>
+      cases cs with
+      | nil =>
+        simp only [wfChildren] at hw
+        simpa [flattenList] using ih lo hi c hw
+      | cons c' cs' => simp [wfChildren] at hw
+    | cons s rest =>
+      have hw' : wf t lo (some s) d c = true ∧ wfChildren t (some s) hi d cs rest = true := by
+        cases cs with
+        | nil => cases rest <;> simp [wfChildren] at hw
+        | cons c' cs' => simpa [wfChildren] using hw
+      simp only [keysOk, Bool.and_eq_true] at hk
+      obtain ⟨⟨⟨hs, hlo⟩, hhi⟩, hrest⟩ := hk
+      obtain ⟨a1, a2, a3, a4⟩ := ih lo (some s) c hw'.1
+      obtain ⟨b1, b2, b3, b4⟩ := ihc rest (some s) hw'.2 hrest
+      have a4 := a4 (optValid_some hs)
+      have b3 := b3 (optValid_some hs)
+      have hle : ∀ e ∈ flatten c, cmp t e.1 s ≠ .gt := by
+        intro e he; simpa [belowHi] using a4 e he
+      have hgt : ∀ e ∈ flattenList cs, cmp t s e.1 = .lt := by
+        intro e he; simpa [aboveLo] using b3 e he
+      simp only [flattenList]
+      refine ⟨?_, ?_, ?_, ?_⟩
+      · refine List.pairwise_append.2 ⟨a1, b1, ?_⟩
+        intro x hx y hy
+        exact hc.trans_lt _ _ _ (a2 x hx) hs (b2 y hy) (hle x hx) (hgt y hy)
+      · intro e he
+        rcases List.mem_append.1 he with he | he
+        · exact a2 e he
+        · exact b2 e he
+      · intro hov e he
+        rcases List.mem_append.1 he with he | he
+        · exact a3 hov e he
+        · cases lo with
+          | none => simp [aboveLo]
+          | some l =>
+            have hl := hov l rfl
+            simp only [aboveLo, beq_iff_eq] at hlo ⊢
+            exact hc.trans_lt _ _ _ hl hs (b2 e he) (by simp [hlo]) (hgt e he)
+      · intro hov e he
+        rcases List.mem_append.1 he with he | he
+        · cases hi with
+          | none => simp [belowHi]
+          | some h =>
+            have hh := hov h rfl
+            simp only [belowHi, bne_iff_ne] at hhi ⊢
+            exact hc.trans _ _ _ (a2 e he) hs hh (hle e he) hhi
+        · exact b4 hov e he
+
+theorem flatten_good (hc : CmpLaws t) (d : Nat) :
+    ∀ (lo hi : Option Bytes) (tr : Tree), wf t lo hi d tr = true → Good t lo hi (flatten tr) := by
+  induction d with
+  | zero =>
+    intro lo hi tr h
+    cases tr with
+    | branch cs keys => simp [wf] at h
+    | leaf es =>
+      simp only [wf, Bool.and_eq_true] at h
+      obtain ⟨k1, k2, k3, k4⟩ := keysOk_spec hc _ lo hi h.2
+      simp only [flatten]
+      refine ⟨?_, ?_, ?_, ?_⟩
+      · simpa [PSorted, List.pairwise_map] using k2
+      · intro e he; exact k1 e.1 (List.mem_map.2 ⟨e, he, rfl⟩)
+      · intro hov e he; exact k4 hov e.1 (List.mem_map.2 ⟨e, he, rfl⟩)
+      · intro _ e he; exact k3 e.1 (List.mem_map.2 ⟨e, he, rfl⟩)
+  | succ d ih =>
+    intro lo hi tr h
+    cases tr with
+    | leaf es => simp [wf] at h
+    | branch cs keys =>
+      simp only [wf, Bool.and_eq_true] at h
+      simp only [flatten]
+      exact children_good hc d ih cs keys lo hi h.2 h.1.2
+
+
+theorem children_lookup (hc : CmpLaws t) {k : Bytes} (d : Nat)
+    (ihg : ∀ lo hi tr, wf t lo hi d tr = true → Good t lo hi (flatten tr))
+    (ihl : ∀ lo hi tr, wf t lo hi d tr = true → lookup t tr k = Spec.get t (flatten tr) k)
+    (hkv : valid t k = true)
+    (cs : List Tree) (keys : List Bytes) (lo hi : Option Bytes)
+    (hw : wfChildren t lo hi d cs keys = true) (hk : keysOk t lo hi keys = true) :
+    lookupNth t cs (childIndex t keys k) k = Spec.get t (flattenList cs) k := by
+  induction cs generalizing keys lo with
+  | nil => cases keys <;> simp [wfChildren] at hw
+  | cons c cs ihc =>
+    cases keys with
+    | nil =>
+      cases cs with
+      | nil =>
+        simp only [wfChildren] at hw
+        simpa [flattenList, childIndex, lookupNth] using ihl lo hi c hw
+      | cons c' cs' => simp [wfChildren] at hw
+    | cons s rest =>
+      have hw' : wf t lo (some s) d c = true ∧ wfChildren t (some s) hi d cs rest = true := by
+        cases cs with
+        | nil => cases rest <;> simp [wfChildren] at hw
+        | cons c' cs' => simpa [wfChildren] using hw
+      simp only [keysOk, Bool.and_eq_true] at hk
+      obtain ⟨⟨⟨hs, hlo⟩, hhi⟩, hrest⟩ := hk
+      obtain ⟨_, a2, _, a4⟩ := ihg lo (some s) c hw'.1
+      obtain ⟨_, b2, b3, _⟩ := children_good hc d ihg cs rest (some s) hi hw'.2 hrest
+      have a4 := a4 (optValid_some hs)
+      have b3 := b3 (optValid_some hs)
+      have hle : ∀ e ∈ flatten c, cmp t e.1 s ≠ .gt := by
+        intro e he; simpa [belowHi] using a4 e he
+      have hgt : ∀ e ∈ flattenList cs, cmp t s e.1 = .lt := by
+        intro e he; simpa [aboveLo] using b3 e he
+      simp only [flattenList, childIndex]
+      by_cases hks : cmp t k s = .gt
+      · simp only [hks, bne_self_eq_false, Bool.false_eq_true, if_false, lookupNth]
+        rw [ihc rest (some s) hw'.2 hrest]
+        symm
+        apply get_append_right
+        intro e he
+        have hsk : cmp t s k = .lt := (cmp_gt_iff hc hkv hs).1 hks
+        have : cmp t e.1 k = .lt := hc.trans_lt _ _ _ (a2 e he) hs hkv (hle e he) hsk
+        exact (cmp_gt_iff hc hkv (a2 e he)).2 this
+      · have : (cmp t k s != .gt) = true := by simpa using hks
+        simp only [this, if_true, lookupNth]
+        rw [ihl lo (some s) c hw'.1]
+        symm
+        apply get_append_left
+        intro e he
+        exact hc.trans_lt _ _ _ hkv hs (b2 e he) hks (hgt e he)
+
+theorem lookup_good (hc : CmpLaws t) (k : Bytes) (hkv : valid t k = true) (d : Nat) :
+    ∀ (lo hi : Option Bytes) (tr : Tree), wf t lo hi d tr = true →
+      lookup t tr k = Spec.get t (flatten tr) k := by
+  induction d with
+  | zero =>
+    intro lo hi tr h
+    cases tr with
+    | branch cs keys => simp [wf] at h
+    | leaf es => simp [lookup, flatten]
+  | succ d ih =>
+    intro lo hi tr h
+    cases tr with
+    | leaf es => simp [wf] at h
+    | branch cs keys =>
+      simp only [wf, Bool.and_eq_true] at h
+      simp only [flatten, lookup]
+      exact children_lookup hc d (flatten_good hc d) ih hkv cs keys lo hi h.2 h.1.2
+
+end aux
+
+/-- a well-formed tree flattens to a strictly sorted list of valid keys inside its bounds
+(the bounds being absent or valid encodings, as they are for every subtree of a real tree) -/
 theorem flatten_sorted (t : KT) (hc : CmpLaws t) (lo hi : Option Bytes)
     (hlo : ∀ l, lo = some l → valid t l = true) (hhi : ∀ h, hi = some h → valid t h = true)
     (d : Nat) (tr : Tree) (h : wf t lo hi d tr = true) :
     Sorted t (flatten tr) ∧ KeysValid t (flatten tr) ∧
     ∀ e, e ∈ flatten tr → aboveLo t lo e.1 = true ∧ belowHi t hi e.1 = true := by
-  sorry
+  obtain ⟨g1, g2, g3, g4⟩ := flatten_good hc d lo hi tr h
+  exact ⟨(sorted_iff_psorted hc _ g2).2 g1, g2, fun e he => ⟨g3 hlo e he, g4 hhi e he⟩⟩
+
+/-- without any assumption on the outer bounds the flattened tree is still sorted and valid -/
+theorem flatten_sorted_nobounds (t : KT) (hc : CmpLaws t) (lo hi : Option Bytes) (d : Nat)
+    (tr : Tree) (h : wf t lo hi d tr = true) :
+    Sorted t (flatten tr) ∧ KeysValid t (flatten tr) := by
+  obtain ⟨g1, g2, _, _⟩ := flatten_good hc d lo hi tr h
+  exact ⟨(sorted_iff_psorted hc _ g2).2 g1, g2⟩
 
 /-- routing finds exactly what the sorted list contains -/
 theorem lookup_of_wf (t : KT) (hc : CmpLaws t) (lo hi : Option Bytes) (d : Nat) (tr : Tree)
     (h : wf t lo hi d tr = true) (k : Bytes) (hk : valid t k = true) :
-    lookup t tr k = Spec.get t (flatten tr) k := by
-  sorry
+    lookup t tr k = Spec.get t (flatten tr) k :=
+  lookup_good hc k hk d lo hi tr h
 
 end Redb.BTree
